@@ -51,6 +51,12 @@ def states(tier, seed):
         st.append(dict(part="keys", key=k, bogus=False, where="surface:AerostructGeometry", fam=fam))
     for k in DOCUMENTED_MESH:
         st.append(dict(part="keys", key=k, bogus=False, where="mesh_dict", fam=fam))
+    # ---- (b') key warnings along histories of ONE user dictionary: build (B), add an unknown key (A), remove it (R), replace the
+    # dictionary by a new object with the same content (N); every sequence of up to 3 (quick) / 4 (thorough) operations followed by a build
+    for n in range(0, 4 if tier == "quick" else 5):
+        for seq in itertools.product("BARN", repeat=n):
+            for where in ("Geometry", "AerostructGeometry"):
+                st.append(dict(part="keyseq", seq="".join(seq) + "B", where=where, fam=fam))
     # ---- (c,d,f) admissible configurations
     for cfg in config_menu(tier):
         st.append(dict(part="valid", cfg=cfg, fam=fam))
@@ -250,6 +256,45 @@ def part_keys(s):
     if not s["bogus"] and msgs:
         viol.append(dict(sig=dict(oracle="documented_key_silent", where=s["where"], key=k), msg="documented key %r produced a warning: %s" % (k, msgs[0][:100]), measure=1.0))
     return dict(viol=viol, nontrivial=True, digest="keys:%s:%s:%d" % (k, s["where"], len(msgs)), transitions=1, validated=1)
+
+
+def part_keyseq(s):
+    """the warning for an unknown key depends on the dictionary's CONTENT at the time a model is built from it, not on whether
+    this dictionary object (or an earlier one at the same address) was seen before"""
+    import gc
+
+    from openaerostruct.geometry.geometry_group import Geometry
+    from openaerostruct.integration.aerostruct_groups import AerostructGeometry
+
+    G = Geometry if s["where"] == "Geometry" else AerostructGeometry
+    key = "sweeep"
+    m = gen.make_mesh("swept", 2, 3, "left", s["fam"])
+    surf = builders.struct_surface("wing", m, True, "tube")
+    viol, val, builds = [], 0, 0
+    for pos, op in enumerate(s["seq"]):
+        if op == "A":
+            surf[key] = 10.0
+        elif op == "R":
+            surf.pop(key, None)
+        elif op == "N":
+            new = dict(surf)
+            del surf
+            gc.collect()
+            surf = dict(new)
+            del new
+        else:
+            with warnings.catch_warnings(record=True) as rec:
+                warnings.simplefilter("always")
+                p = om.Problem(reports=False)
+                p.model.add_subsystem("g", G(surface=surf))
+                p.setup()
+            del p
+            builds += 1
+            warned = any(issubclass(w_.category, RuntimeWarning) and ("`%s`" % key) in str(w_.message) for w_ in rec)
+            val += 1
+            if warned != (key in surf):
+                viol.append(dict(sig=dict(oracle="unknown_key_warns" if key in surf else "documented_key_silent", where=s["where"], history=True), msg="history %s, build at position %d: unknown key present=%s but warning issued=%s" % (s["seq"], pos, key in surf, warned), measure=1.0))
+    return dict(viol=viol, nontrivial=True, digest="keyseq:%s:%s:%d" % (s["seq"], s["where"], len(viol)), transitions=len(s["seq"]), validated=val)
 
 
 # ------------------------------------------------------------------ admissible configurations
